@@ -26,7 +26,7 @@ PATS = ["*.tmp", "*.bak", "Thumbs.db", "cache"]
 
 
 def budget(tier):
-    return {"cases": 2400, "seconds": 55} if tier == "quick" else {"cases": 60000, "seconds": 600}
+    return {"cases": 5000, "seconds": 55} if tier == "quick" else {"cases": 120000, "seconds": 600}
 
 
 def _lines(text):
